@@ -1,4 +1,5 @@
 import WmModel.Props.C01
+import WmModel.Props.C01Conf
 #print axioms Wm.Pipeline.no_loss_inv
 #print axioms Wm.Pipeline.ack_after_accept
 #print axioms Wm.Pipeline.publishOk_creates_downstream
@@ -12,3 +13,7 @@ import WmModel.Props.C01
 #print axioms Wm.Pipeline.maximal_run_delivers
 #print axioms Wm.Pipeline.pipeline_refines
 #print axioms Wm.Pipeline.realEff_facts
+#print axioms Wm.Pipeline.candidates_complete
+#print axioms Wm.Pipeline.enabled_empty_terminal
+#print axioms Wm.Pipeline.conf_ok_sound
+#print axioms Wm.Pipeline.conf_ok_delivers
